@@ -297,6 +297,34 @@ fn itermut_zst(al: i128, nrows: usize, ncols: usize, order: i128, axis: i128, sc
     }
 }
 
+/// the three `*_with_index` parallel iterators over a lane of `n` zero-sized elements (n may exceed 2^32): number of items,
+/// number of items whose index lies outside the matrix, and the wrapping sum of row + col over all items
+#[cfg(feature = "parallel")]
+fn par_idx_zst(n: usize, order: i128, which: i128) -> String {
+    use rayon::iter::ParallelIterator;
+    let mut m = Matrix::from_row(vec![(); n]);
+    if order != 0 {
+        m.switch_order_without_rearrangement(); // the same lane as an n x 1 column-major matrix
+    }
+    let (nr, nc) = (m.nrows(), m.ncols());
+    let acc = |ix: matreex::Index| -> (u64, u64, u64) { (1, (ix.row >= nr || ix.col >= nc) as u64, (ix.row as u64).wrapping_add(ix.col as u64)) };
+    let add = |a: (u64, u64, u64), b: (u64, u64, u64)| (a.0 + b.0, a.1 + b.1, a.2.wrapping_add(b.2));
+    let r = match which {
+        0 => m.par_iter_elements_with_index().map(|(ix, _)| acc(ix)).reduce(|| (0, 0, 0), add),
+        1 => m.par_iter_elements_mut_with_index().map(|(ix, _)| acc(ix)).reduce(|| (0, 0, 0), add),
+        _ => {
+            let r = m.into_par_iter_elements_with_index().map(|(ix, _)| acc(ix)).reduce(|| (0, 0, 0), add);
+            return format!("[{},{},{}]", r.0, r.1, r.2);
+        }
+    };
+    std::mem::forget(m);
+    format!("[{},{},{}]", r.0, r.1, r.2)
+}
+#[cfg(not(feature = "parallel"))]
+fn par_idx_zst(_: usize, _: i128, _: i128) -> String {
+    "INVALID".to_string()
+}
+
 fn text(s: &str) -> String {
     format!("S:{}", s.chars().map(|c| (c as u32).to_string()).collect::<Vec<_>>().join("."))
 }
@@ -351,6 +379,7 @@ pub fn run_k(toks: &[&str]) -> String {
         "scalar_forms" => text(&crate::scalar::scalar_forms(a[0], a[1], a.get(2).copied().unwrap_or(0))),
         "scalar_neg" => text(&crate::scalar::scalar_neg(a[0])),
         "itermut_zst" => itermut_zst(a[0], u(1), u(2), a[3], a[4], &a[5..]),
+        "par_idx_zst" => par_idx_zst(u(0), a[1], a[2]),
         "from_wrapping" => {
             let (mj, mn) = matreex::verif_hooks::from_wrapping_index(a[0] as isize, a[1] as isize, ord(a[2]), u(3), u(4));
             format!("[{mj},{mn}]")
